@@ -32,6 +32,7 @@ CONSTANTS MaxStmts, MaxLeaves, MaxNodes, MaxNames,
           Verbs,      \* verbatim fragments (Python text written between backticks, copied into the code untouched)
           BinOps, CmpOps, BoolOps, Funcs1, Funcs2,
           UseNeg, UseParen, UseCond, UseNot,
+          MaxVerbatim, VForms,   \* verbatim statements (whole backticked lines / fenced blocks) between the equations
           NoReject    \* TRUE: only build programs the parser must accept (no kind clash, no second definition)
 
 Named == 1000
@@ -54,10 +55,11 @@ VARIABLES stmts,   \* finished statements: [lhs |-> var token, rhs |-> postfix]
           kinds,   \* name id -> kind it has been used with so far ("" = not yet used; "d" = defined by an equation)
           terms, nameseq,   \* set once when the program is finished: its term list and its names in order of first
                             \* appearance (TLC re-evaluates state-dependent definitions on every use; these two are used everywhere)
+          verbat,  \* verbatim statements: [after |-> number of equations written before it, form |-> "line" | "fence"]
           phase
-vars == <<stmts, stack, leaves, nodes, used, kinds, terms, nameseq, phase>>
+vars == <<stmts, stack, leaves, nodes, used, kinds, terms, nameseq, verbat, phase>>
 
-Init == stmts = <<>> /\ stack = <<>> /\ leaves = 0 /\ nodes = 0 /\ used = 0 /\ phase = "build" /\ kinds = [n \in 1..MaxNames |-> ""] /\ terms = <<>> /\ nameseq = <<>>
+Init == stmts = <<>> /\ stack = <<>> /\ leaves = 0 /\ nodes = 0 /\ used = 0 /\ phase = "build" /\ kinds = [n \in 1..MaxNames |-> ""] /\ terms = <<>> /\ nameseq = <<>> /\ verbat = <<>>
 
 Top     == stack[Len(stack)]
 Pop(j)  == SubSeq(stack, 1, Len(stack) - j)
@@ -71,32 +73,32 @@ PushVar(kind, name, idx) ==
   /\ kinds' = IF kinds[name] = "" THEN [kinds EXCEPT ![name] = kind] ELSE kinds
   /\ stack' = Append(stack, <<Var(kind, name, idx)>>)
   /\ leaves' = leaves + 1 /\ nodes' = nodes + 1 /\ used' = IF name > used THEN name ELSE used
-  /\ UNCHANGED <<stmts, terms, nameseq, phase>>
+  /\ UNCHANGED <<verbat, stmts, terms, nameseq, phase>>
 
 PushNum(lit) ==
   /\ Building /\ leaves < MaxLeaves /\ nodes + 1 + Len(stack) <= MaxNodes
   /\ stack' = Append(stack, <<Tok("num", lit, 0, 0)>>)
   /\ leaves' = leaves + 1 /\ nodes' = nodes + 1
-  /\ UNCHANGED <<stmts, used, kinds, terms, nameseq, phase>>
+  /\ UNCHANGED <<verbat, stmts, used, kinds, terms, nameseq, phase>>
 
 Unary(tok) ==
   /\ Building /\ stack # <<>> /\ Room(1)
   /\ Top[Len(Top)].t # tok.t                 \* no immediate repetition (-(-x)), ((x)) adds nothing new
   /\ stack' = Append(Pop(1), Append(Top, tok))
   /\ nodes' = nodes + 1
-  /\ UNCHANGED <<stmts, leaves, used, kinds, terms, nameseq, phase>>
+  /\ UNCHANGED <<verbat, stmts, leaves, used, kinds, terms, nameseq, phase>>
 
 Binary(tok) ==
   /\ Building /\ Len(stack) >= 2 /\ nodes + 1 + (Len(stack) - 2) <= MaxNodes
   /\ stack' = Append(Pop(2), stack[Len(stack) - 1] \o Top \o <<tok>>)
   /\ nodes' = nodes + 1
-  /\ UNCHANGED <<stmts, leaves, used, kinds, terms, nameseq, phase>>
+  /\ UNCHANGED <<verbat, stmts, leaves, used, kinds, terms, nameseq, phase>>
 
 Ternary ==
   /\ Building /\ UseCond /\ Len(stack) >= 3 /\ nodes + 1 + (Len(stack) - 3) <= MaxNodes
   /\ stack' = Append(Pop(3), stack[Len(stack) - 2] \o stack[Len(stack) - 1] \o Top \o <<Tok("cond", "", 0, 0)>>)
   /\ nodes' = nodes + 1
-  /\ UNCHANGED <<stmts, leaves, used, kinds, terms, nameseq, phase>>
+  /\ UNCHANGED <<verbat, stmts, leaves, used, kinds, terms, nameseq, phase>>
 
 CloseEq(name, idx) ==
   /\ Building /\ Len(stack) = 1
@@ -105,20 +107,27 @@ CloseEq(name, idx) ==
   /\ kinds' = [kinds EXCEPT ![name] = "d"]
   /\ stmts' = Append(stmts, [lhs |-> Var("v", name, idx), rhs |-> stack[1]])
   /\ stack' = <<>> /\ leaves' = 0 /\ nodes' = 0 /\ used' = IF name > used THEN name ELSE used
-  /\ UNCHANGED <<terms, nameseq, phase>>
+  /\ UNCHANGED <<verbat, terms, nameseq, phase>>
 
 Finish ==
-  /\ phase = "build" /\ stack = <<>> /\ stmts # <<>>
+  /\ phase = "build" /\ stack = <<>> /\ (stmts # <<>> \/ verbat # <<>>)
   /\ phase' = "done"
   /\ terms' = TermsOfStmts(stmts) /\ nameseq' = FirstSeen(TermsOfStmts(stmts), <<>>)
-  /\ UNCHANGED <<stmts, stack, leaves, nodes, used, kinds>>
+  /\ UNCHANGED <<verbat, stmts, stack, leaves, nodes, used, kinds>>
+
+(* a verbatim statement between two equations (or before the first / after the last one) *)
+PlaceVerbatim(f) ==
+  /\ phase = "build" /\ stack = <<>> /\ Len(verbat) < MaxVerbatim
+  /\ verbat' = Append(verbat, [after |-> Len(stmts), form |-> f])
+  /\ UNCHANGED <<stmts, stack, leaves, nodes, used, kinds, terms, nameseq, phase>>
+DoVerbatim == \E f \in VForms : PlaceVerbatim(f)
 
 DoPushVar == \E kd \in Kinds, nm \in 1..MaxNames, ix \in Idxs : PushVar(kd, nm, ix)
 PushVerb(txt) ==
   /\ Building /\ leaves < MaxLeaves /\ nodes + 1 + Len(stack) <= MaxNodes
   /\ stack' = Append(stack, <<Tok("verb", txt, 0, 0)>>)
   /\ leaves' = leaves + 1 /\ nodes' = nodes + 1
-  /\ UNCHANGED <<stmts, used, kinds, terms, nameseq, phase>>
+  /\ UNCHANGED <<verbat, stmts, used, kinds, terms, nameseq, phase>>
 
 DoPushNum == (\E l \in Nums : PushNum(l)) \/ (\E v \in Verbs : PushVerb(v))
 DoUnary   == \/ (UseNeg /\ Unary(Tok("neg", "", 0, 0)))
@@ -131,7 +140,7 @@ DoBinary  == \/ \E o \in BinOps : Binary(Tok("bin", o, 0, 0))
              \/ \E f \in Funcs2 : Binary(Tok("call", f, 2, 0))
 DoClose   == \E nm \in 1..MaxNames, ix \in LhsIdxs : CloseEq(nm, ix)
 
-Next == DoPushVar \/ DoPushNum \/ DoUnary \/ DoBinary \/ Ternary \/ DoClose \/ Finish
+Next == DoPushVar \/ DoPushNum \/ DoUnary \/ DoBinary \/ Ternary \/ DoClose \/ DoVerbatim \/ Finish
 Spec == Init /\ [][Next]_vars
 Done == phase = "done"
 
@@ -189,6 +198,11 @@ Events == [i \in 1..Len(EvalOrder) |->
                                [n |-> ReadsOf(s)[j].n, s |-> ReadsOf(s)[j].s, k |-> ReadsOf(s)[j].k,
                                 ver |-> IF ReadsOf(s)[j].k # Named /\ Cell(ReadsOf(s)[j]) \in w THEN 1 ELSE 0]],
                   write |-> [n |-> s.lhs.n, k |-> s.lhs.k]]]
+(* Verbatim statements carry no name: the symbol list is the named symbols in order of first appearance followed by   *)
+(* the verbatim blocks in script order (parser.py:789-801), and the generated pass runs the equations in evaluation   *)
+(* order and then the verbatim blocks (parser.py:1101-1109) - wherever in the script they were written.               *)
+CodeOrder == [i \in 1..(Len(EvalOrder) + Len(verbat)) |->
+                IF i <= Len(EvalOrder) THEN [kind |-> "eq", i |-> EvalOrder[i]] ELSE [kind |-> "verb", i |-> i - Len(EvalOrder)]]
 (* dependency sets for the graph tool (C20): right-hand-side variable-like terms of each equation *)
 Deps(i) == {<<ReadsOf(stmts[i])[j].n, ReadsOf(stmts[i])[j].k>> : j \in 1..Len(ReadsOf(stmts[i]))}
 
@@ -224,6 +238,12 @@ C01_WritesOnlyLHS ==
   (Done /\ ~Rejected) => {Events[i].write : i \in 1..Len(Events)} = {[n |-> stmts[i].lhs.n, k |-> stmts[i].lhs.k] : i \in 1..N}
 C20_DepsAreReads ==
   Done => \A i \in 1..N : Deps(i) = {<<t.n, t.k>> : t \in {TermsOf(stmts[i])[j] : j \in 2..Len(TermsOf(stmts[i]))}}
+(* C13: "each [statement] contributes exactly one equation or verbatim block to the built model" *)
+C13_OneBlockEach ==
+  (Done /\ ~Rejected) =>
+     /\ Len(CodeOrder) = Cardinality({stmts[i] : i \in 1..N}) + Len(verbat)
+     /\ \A a, b \in 1..Len(CodeOrder) : (a < b /\ CodeOrder[a].kind = CodeOrder[b].kind) => CodeOrder[a].i # CodeOrder[b].i
+     /\ \A a, b \in 1..Len(verbat) : a < b => verbat[a].after <= verbat[b].after       \* script order
 
-TypeOK == phase \in {"build", "done"} /\ Len(stmts) <= MaxStmts /\ nodes <= MaxNodes
+TypeOK == phase \in {"build", "done"} /\ Len(stmts) <= MaxStmts /\ nodes <= MaxNodes /\ Len(verbat) <= MaxVerbatim
 =============================================================================
